@@ -168,6 +168,8 @@ def run_family(fam: Family, res: common.Result, build, rule, trusted, assume, ex
             else:
                 for m in fam.extra_model_check(o["spec"], o["info"], o, drv[i]):
                     res.disagree(case, m)
+    if getattr(fam, "extra_streams", None) is not None:
+        fam.extra_streams(res)
     if fam.cross:
         from . import crosscorr
 
